@@ -305,6 +305,145 @@ impl MerkleTree {
     before `let success_or_instructions =`#2:
         proof { lemma_contains_anc(iter, sub_tree); }
     @*/
+
+    /// nodes read from the local tree store (and those waiting to be flushed) describe less than 2^48 bytes each
+    pub open spec fn nodes_small(&self, nodes: &IntMap<Option<Node>>) -> bool {
+        &&& forall|k: u64| #![trigger nodes@[k]] nodes@.contains_key(k) && nodes@[k] is Some ==> nodes@[k]->Some_0.length <= 0xffff_ffff_ffff
+        &&& forall|k: u64| #![trigger self.unflushed@[k]] self.unflushed@.contains_key(k) ==> self.unflushed@[k].length <= 0xffff_ffff_ffff
+    }
+
+    /*@ fn src/tree/merkle_tree.rs MerkleTree::seek_trusted_tree
+    tags: C09 C03
+    result: r
+    requires:
+        self.t_wf(), root < 0x2000_0000_0000
+    ensures:
+        r is Ok && r->Ok_0 is Right ==> r->Ok_0->Right_0 < 0x8000_0000_0000
+    after `let mut iter = flat_tree::Iterator::new(root);`:
+        let ghost it0 = iter;
+        proof { flat_tree::lemma_p2_4x(); flat_tree::lemma_depth_bound(iter, 45); flat_tree::lemma_p2_mono(iter.d@, 45); }
+    loop 1:
+        invariant
+            self.t_wf(), iter.wf(), it0.wf(), iter.d@ <= it0.d@, it0.d@ <= 45, it0.index < 0x2000_0000_0000, p2(it0.d@) <= 0x2000_0000_0000,
+            iter.index - p2(iter.d@) >= it0.index - p2(it0.d@), iter.index + p2(iter.d@) <= it0.index + p2(it0.d@)
+        decreases iter.d@
+    before `let node_or_instruction = self.optional_node(iter.left_child(), nodes)?;`:
+        proof {
+            let ghost ix = iter.index;
+            assert((ix & 1 != 0) == (ix % 2 == 1)) by (bit_vector);
+            flat_tree::lemma_parity(iter.d@, iter.offset as int);
+            assert(p2(iter.d@ + 1) == 2 * p2(iter.d@) && p2(iter.d@) == 2 * p2((iter.d@ - 1) as nat));
+            flat_tree::lemma_p2_pos((iter.d@ - 1) as nat); flat_tree::lemma_p2_mono(iter.d@, it0.d@);
+        }
+    before `iter.sibling();`:
+        proof { assert(p2(iter.d@ + 1) == 2 * p2(iter.d@)); flat_tree::lemma_p2_pos(iter.d@); flat_tree::lemma_p2_mono(iter.d@, it0.d@); }
+    before `iter.parent();`:
+        proof { assert(p2(iter.d@ + 1) == 2 * p2(iter.d@)); flat_tree::lemma_p2_pos(iter.d@); flat_tree::lemma_p2_mono(iter.d@, it0.d@); }
+    @*/
+
+    /*@ fn src/tree/merkle_tree.rs MerkleTree::seek_from_head
+    tags: C09 C03
+    result: r
+    requires:
+        self.t_wf(), head % 2 == 0, head < 0x400_0000_0000
+    ensures:
+        r is Ok && r->Ok_0 is Right ==> r->Ok_0->Right_0 < 0x8000_0000_0000
+    sub `for root in roots \{` => `let mut vp_i: usize = 0; while vp_i < roots.len() { let root = roots[vp_i]; vp_i += 1;`
+    sub `instructions\.extend\((\w+)\);` => `vp_extend(&mut instructions, \1);`
+    loop 1:
+        invariant
+            self.t_wf(), head < 0x400_0000_0000, forall|k: int| 0 <= k < roots@.len() ==> (#[trigger] roots@[k]) < head, vp_i <= roots@.len()
+        decreases roots@.len() - vp_i
+    @*/
+
+    /// representation invariant of the root list ("mountain range"): root k is the root of the full tree that starts
+    /// where the trees of roots 0..k end, the trees end at leaf `length`, and the root sizes add up to the byte length
+    pub open spec fn roots_wf(&self) -> bool {
+        &&& self.roots@.len() <= 64
+        &&& forall|k: int| 0 <= k < self.roots@.len() ==> (#[trigger] self.roots@[k]).index == root_start(self.roots@, k) + p2(depth_of(self.roots@[k].index)) - 1
+                && self.roots@[k].length <= 0xffff_ffff_ffff
+        &&& root_start(self.roots@, self.roots@.len() as int) == 2 * self.length
+    }
+
+    /*@ fn src/tree/merkle_tree.rs MerkleTree::byte_offset_from_nodes
+    tags: C09 C03
+    result: r
+    requires:
+        self.t_wf(), self.roots_wf(), self.nodes_small(nodes), index < 0x400_0000_0000
+    ensures:
+        r is Ok && r->Ok_0 is Right ==> r->Ok_0->Right_0 <= 0x80_0000_0000_0000
+    sub `for root_node in &self\.roots \{` => `let mut vp_i: usize = 0; while vp_i < self.roots.len() { let root_node = &self.roots[vp_i]; vp_i += 1;`
+    after `let index = if (index & 1) == 1 {`:
+        // (nothing: the rebinding below is the leftmost leaf of an odd index)
+    before `let mut head: u64 = 0;`:
+        proof { let ghost ix = index; assert(((ix & 1) == 1) == (ix % 2 == 1)) by (bit_vector); }
+    loop 1:
+        invariant
+            self.t_wf(), self.roots_wf(), self.nodes_small(nodes), index < 0x400_0000_0000, index % 2 == 0,
+            vp_i <= self.roots@.len(), head == root_start(self.roots@, vp_i as int), index >= head, offset <= vp_i * 0x1_0000_0000_0000, head % 2 == 0, head <= 2 * self.length
+        decreases self.roots@.len() - vp_i
+    before `head += 2 * ((root_node.index - head) + 1);`:
+        proof {
+            lemma_root_start_mono(self.roots@, vp_i as int, self.roots@.len() as int);
+            lemma_root_start_even(self.roots@, vp_i as int);
+            lemma_root_start_even(self.roots@, vp_i - 1);
+            assert(*root_node == self.roots@[vp_i - 1]);
+            assert(head == root_start(self.roots@, vp_i - 1));
+            assert(root_node.index == head + p2(depth_of(root_node.index)) - 1);
+            assert(root_start(self.roots@, vp_i as int) == root_start(self.roots@, vp_i - 1) + p2(depth_of(self.roots@[vp_i - 1].index) + 1));
+            assert(p2(depth_of(root_node.index) + 1) == 2 * p2(depth_of(root_node.index)));
+            flat_tree::lemma_p2_pos(depth_of(root_node.index));
+        }
+        let ghost head0 = head;
+    after `let mut iter = flat_tree::Iterator::new(root_node.index);`:
+        proof {
+            flat_tree::lemma_node_of(iter);
+            lemma_root_iter(iter, head0 as int, head as int, index);
+        }
+    loop 2:
+        invariant
+            self.t_wf(), self.nodes_small(nodes), iter.wf(), iter.spans(index as int), index % 2 == 0, index < 0x400_0000_0000,
+            iter.d@ <= 42, iter.index < 0x800_0000_0000, offset <= (vp_i + 64 - iter.d@) * 0x1_0000_0000_0000, vp_i <= 64
+        decreases iter.d@
+    before `if index < iter.index() {`:
+        proof {
+            assert(p2(0) == 1);
+            assert(iter.d@ > 0);
+            assert(p2(iter.d@ + 1) == 2 * p2(iter.d@) && p2(iter.d@) == 2 * p2((iter.d@ - 1) as nat));
+            flat_tree::lemma_p2_pos((iter.d@ - 1) as nat); flat_tree::lemma_p2_4x(); flat_tree::lemma_p2_mono(iter.d@, 42);
+        }
+    before `iter.sibling();`:
+        proof { assert(p2(iter.d@ + 1) == 2 * p2(iter.d@)); flat_tree::lemma_p2_4x(); flat_tree::lemma_p2_mono(iter.d@, 42); }
+    @*/
+}
+
+/// an iterator on the root of the full tree over the flat range [head0, head): the leaves in that range are inside its span
+pub proof fn lemma_root_iter(it: flat_tree::Iterator, head0: int, head: int, index: u64)
+    requires it.wf(), it.index == head0 + p2(it.d@) - 1, head == head0 + 2 * p2(it.d@), head0 >= 0, head0 % 2 == 0, index % 2 == 0,
+        head0 <= index < head, head <= 0x400_0000_0000
+    ensures it.spans(index as int), it.d@ <= 42, it.index < 0x400_0000_0000
+{
+    flat_tree::lemma_p2_pos(it.d@);
+    flat_tree::lemma_p2_4x();
+    flat_tree::lemma_depth_bound(it, 42);
+}
+/// flat index at which the tree of root k starts
+pub open spec fn root_start(roots: Seq<Node>, k: int) -> int
+    decreases k
+{ if k <= 0 { 0 } else { root_start(roots, k - 1) + p2(depth_of(roots[k - 1].index) + 1) } }
+pub proof fn lemma_root_start_mono(roots: Seq<Node>, a: int, b: int)
+    requires 0 <= a <= b
+    ensures 0 <= root_start(roots, a) <= root_start(roots, b)
+    decreases b
+{
+    if a < b { lemma_root_start_mono(roots, a, b - 1); flat_tree::lemma_p2_pos(depth_of(roots[b - 1].index) + 1); }
+    else if a > 0 { lemma_root_start_mono(roots, a - 1, a - 1); flat_tree::lemma_p2_pos(depth_of(roots[a - 1].index) + 1); }
+}
+pub proof fn lemma_root_start_even(roots: Seq<Node>, k: int)
+    ensures root_start(roots, k) % 2 == 0
+    decreases k
+{
+    if k > 0 { lemma_root_start_even(roots, k - 1); assert(p2(depth_of(roots[k - 1].index) + 1) == 2 * p2(depth_of(roots[k - 1].index))); }
 }
 
 /// `iter.contains(x)` for a node index x: x lies in the subtree iter is on
